@@ -397,4 +397,82 @@ example : conjProx exEnv (.leaf 0) (.arr [4, 6]) 2 = .ok (.arr [0, 0]) := by
   simp [conjProx, prox, exEnv, Arg.map, Arg.smul, Arg.sub, Arg.zip, zipSame, Except.map, bind, Except.bind]
   norm_num
 
+/-! ### round 3 -/
+
+/-- **keyword arguments** (`prox(v, lam, **kwargs)`, e.g. the initial guess `x0`): through every nesting of
+    `ScaledFunctional`, `SeparableFunctional`, `Loss` (and `conj_prox`, which calls `prox`) whoever receives keyword
+    arguments — the base functionals and the CG-branch `SquaredL2Loss` nodes listed by `kwPlan` — receives exactly the
+    caller's dictionary; `SquaredL2Loss.prox` starts CG from `x0` when given and not `None`, from zeros otherwise -/
+theorem C08_kwargs_forwarded {α κ : Type} [Add α] [Sub α] [Mul α] [Div α] [Neg α] [Zero α] [One α] [LT α] [DecidableLT α]
+    [HasSqrt α] (En : Env α) (t : Fn α) (kw : κ) (x0 v : List α) :
+    (∀ c ∈ kwPlan En t kw, c.2 = kw) ∧ sqL2X0 (some x0) v = x0 ∧ sqL2X0 none v = v.map (fun _ => 0) :=
+  ⟨kwPlan_forward En t kw, rfl, rfl⟩
+
+/-- **`SeparableFunctional` applied to a plain array** (its documented argument is a `BlockArray`): the code accepts it
+    iff `ndim = k` (`ValueError` otherwise) and then acts as the separable functional of the first `min(k, shape[0])`
+    functionals on the block array of the first `min(k, shape[0])` slices along the leading axis (`zip` stops at the
+    shorter list) — for `__call__` and for `prox` (which returns a `BlockArray`).  In particular on an array with
+    exactly `k` leading slices it is the documented separable sum of `C08_separable` / `C09_separable_eval`. -/
+theorem C08_separable_plain_array {α : Type} [Add α] [Sub α] [Mul α] [Div α] [Neg α] [Zero α] [One α] [LT α]
+    [DecidableLT α] [HasSqrt α] (En : Env α) (fs : List (Fn α)) (shape : List Nat) (x : List α) (lam : α) :
+    (shape.length ≠ fs.length → evalSepPlain En fs shape x = .error .value ∧ proxSepPlain En fs shape x lam = .error .value) ∧
+    (shape.length = fs.length →
+      let rows := leadingSlices shape En.cplx x
+      let n := min fs.length rows.length
+      evalSepPlain En fs shape x = eval En (Fn.sep (fs.take n)) (.blk (rows.take n)) ∧
+      proxSepPlain En fs shape x lam = prox En (Fn.sep (fs.take n)) (.blk (rows.take n)) lam) :=
+  ⟨fun h => by simp [evalSepPlain, proxSepPlain, h],
+   fun h => by
+     simp only [evalSepPlain, proxSepPlain, h, if_true]
+     exact ⟨evalZip_eq En fs _, proxZip_eq En fs _ lam⟩⟩
+
+-- two functionals on a (3, 2) array: only the first two rows are used
+example : leadingSlices [3, 2] false [(1 : ℚ), 2, 3, 4, 5, 6] = [[1, 2], [3, 4], [5, 6]] := by decide
+example : evalSepPlain exEnv [.leaf 0, .leaf 0] [3] [(1 : ℚ), 2, 3] = .error .value := by decide
+
+/-- **kinds of scale objects**: `ScaledFunctional.has_prox` is set exactly when the wrapped functional has a prox and the
+    scale is a positive real *or a real tracer* (inside `jit` the sign is unknown at construction time: the flag is kept,
+    and is truthful iff the run-time value is positive); complex-dtype scales (also `2+0j`, also complex tracers) and
+    non-positive reals clear it -/
+theorem C08_scale_kinds (inner : Bool) (k : ScaleKind) :
+    scaledHasProxOf inner k = true ↔ inner = true ∧ (k = .posReal ∨ k = .tracedReal) := by
+  cases k <;> cases inner <;> simp [scaledHasProxOf]
+
+example : scaledHasProxOf true .complex = false ∧ scaledHasProxOf true .tracedReal = true := by decide
+
+/-- **weights of a `SquaredL2Loss` of another length than the data**: a diagonal of `n` entries is used as it is, one
+    entry is broadcast to all `n`, anything else is a (broadcasting) `TypeError`; the normalised weights have `n`
+    entries and stay non-negative, so the weighted theorems (`C08_sqL2_*`) apply to them -/
+theorem C08_weights_normalised {K : Type} [Field K] [LinearOrder K] (w : List K) (n : Nat) (hw : ∀ a ∈ w, 0 ≤ a) :
+    (w.length = n → wNormalize (some w) n = .ok (some w)) ∧
+    (∀ a, w = [a] → n ≠ 1 → wNormalize (some w) n = .ok (some (List.replicate n a))) ∧
+    (w.length ≠ n → w.length ≠ 1 → wNormalize (some w) n = .error .type) ∧
+    (∀ w', wNormalize (some w) n = .ok (some w') → w'.length = n ∧ ∀ a ∈ w', 0 ≤ a) := by
+  refine ⟨fun h => by simp [wNormalize, h], fun a ha hn => ?_, fun h1 h2 => ?_, fun w' h => ?_⟩
+  · subst ha
+    simp [wNormalize]
+    intro h; exact absurd h.symm hn
+  · simp only [wNormalize, h1, if_false]
+    match w, h2 with
+    | [], _ => rfl
+    | [_], h2 => simp at h2
+    | _ :: _ :: _, _ => rfl
+  · simp only [wNormalize] at h
+    split at h
+    · simp only [Except.ok.injEq, Option.some.injEq] at h
+      subst h; exact ⟨‹_›, hw⟩
+    · match w, h, hw with
+      | [a], h, hw =>
+        simp only [Except.ok.injEq, Option.some.injEq] at h
+        subst h
+        refine ⟨by simp, fun b hb => ?_⟩
+        rw [(List.mem_replicate.mp hb).2]; exact hw a (by simp)
+      | [], h, _ => simp at h
+      | _ :: _ :: _, h, _ => simp at h
+
+example : wNormalize (some [(2 : ℚ)]) 3 = .ok (some [2, 2, 2]) ∧ wNormalize (some [(2 : ℚ), 1]) 3 = .error .type := by decide
+
+-- `2 * Separable([Loss(y, f=leaf0, scale=3), leaf0])`: both occurrences of leaf 0 receive the dictionary (here the token 7)
+example : kwPlan exEnv exTree (7 : Nat) = [(.inl 0, 7), (.inl 0, 7)] := by decide
+
 end Scico.Props.C08
